@@ -61,7 +61,7 @@ NP_ALLOC = {"zeros", "ones", "empty", "full", "array", "arange", "eye", "zeros_l
             "empty_like", "full_like", "concatenate", "stack", "copy", "identity", "tril", "triu",
             "exp", "log", "sqrt", "abs", "sum", "prod", "cumsum", "matmul", "where",
             "clip", "logaddexp", "maximum", "minimum", "reciprocal", "tile", "repeat", "linspace",
-            "meshgrid_copy", "indices", "diag", "argsort", "argmax", "argmin", "any", "all",
+            "indices", "argsort", "argmax", "argmin", "any", "all",
             "amax", "amin", "max", "min", "mean", "var", "std", "log1p", "expm1", "sign", "isnan",
             "isinf", "isfinite", "floor", "ceil", "round", "power", "multiply", "add", "subtract",
             "divide", "negative", "logical_not", "logical_and", "logical_or", "pad", "triu_indices",
@@ -78,7 +78,7 @@ VIEW_METHODS = {"reshape", "transpose", "view", "squeeze", "swapaxes", "ravel", 
 # x.<name>(…): result is a private array whatever x is
 ALLOC_METHODS = {"new_zeros", "new_ones", "new_full", "new_empty", "new_arange", "new_eye", "new_tensor",
                  "sum", "prod", "max", "min", "mean", "cumsum", "dot", "argsort", "argmax", "argmin",
-                 "any", "all", "flatten", "tolist", "clone", "nonzero", "round", "clip", "conj"}
+                 "any", "all", "flatten", "tolist", "clone", "nonzero", "round", "clip"}
 # ops.<name>(…) helpers of funsor.ops that allocate
 OPS_ALLOC_PREFIX = ("new_",)
 FRESH_CTORS = {"list", "dict", "set", "OrderedDict", "defaultdict", "sorted", "bytearray", "deque",
@@ -365,6 +365,10 @@ class FuncScan:
                     v = argv[0] if argv else N
                     return FA if v == FA else N
                 if attr in NP_ALLOC:
+                    # np.array(x, copy=False) and friends may alias their argument
+                    cp = [kw for kw in e.keywords if kw.arg == "copy"]
+                    if cp and not (isinstance(cp[0].value, ast.Constant) and cp[0].value.value is True):
+                        return FA if (argv and argv[0] == FA) else N
                     return FA
                 return N
             if is_mod:
